@@ -108,6 +108,17 @@ PROPS = {
         "level_note": "trusted: Cache.tla's abstraction of from_ym (bound by the hit/miss/fill/refuse hook events), the guarded hooks, the OS scheduler for real interleavings; answers are compared with the uncached constructor / a fresh process of the same build, so a defect that is history-independent is out of scope here (C02/C03 cover it)",
         "technique": "TLA+ memo model: exhaustive interleavings with TLC, TLC-generated histories replayed into the code, hook-event trace validation",
     },
+    "C15": {
+        "title": "term-anchored day series: Nines, Dog days, Plum rains, pentads, ruling stems",
+        "mc": {"quick": [{"module": "MC_Series", "cfg": "MC_Series.cfg", "workers": 4}]},
+        "rule": "civil day walks (catalogue + 20 seeded windows + the summers and winters of 60 seeded years; thorough every date) logging the six term days of the year, the governing term and Jie, and the five getters' answers. "
+                "Non-trivial: days inside a Nine / Dog-day / Plum-rain series, first days of pentads and allotments",
+        "exhaustive": {"quick": False, "thorough": True},
+        "assumptions": ["term days are those of the term objects (C06); the day pillar is (day number + 49) mod 60 (C07)"],
+        "level_text": "TLC checks the series sub-machines for every pillar phase of the solstice day and every solstice-to-autumn distance (MC_Series: Dog-day parts start on Geng days, 20-day middle part iff the fifth Geng day precedes the start of autumn, a Geng solstice counts, 81 Nine days, allotment indices count without gap) and validates the real code's five getters on every walked day against the same operators re-derived from term days and pillar; thorough covers every date of years 2..9998",
+        "level_note": "trusted: Series.tla (classical allotment table transcribed from the month list, not from the packed digit string), TLC, harness logging",
+        "technique": "TLA+ series sub-machines checked with TLC + trace validation of day walks",
+    },
     "C18": {
         "title": "almanac lookup tables are total and well-formed for every pillar pair",
         "mc": {"quick": [{"module": "MC_AlmanacTables", "cfg": "MC_AlmanacTables.cfg", "workers": 2}]},
